@@ -206,10 +206,16 @@ Definition chk_measure (c : list (vec3 QK) * list (list Z) * expect (list mexp))
                 (measure_pre QK coords false ms) e.
 
 (* distance_matrix *)
+(* entrywise: absolutely (1e-9, through the truncated square root) AND relatively on the squares, which are exact over Q:
+   |e^2 - |a_i - b_j|^2| <= 1e-9 |a_i - b_j|^2 (+ 1e-26), so that a distance of 1e-6 returned as 0 is a disagreement *)
+Definition sq_close (e n2 : Q) : bool := Qle_bool (Qabs' (e * e - n2)) (tolQ * n2 + (1 # 100000000000000000000000000)).
 Definition chk_distmat (c : list (vec3 QK) * list (vec3 QK) * list (list Q)) : bool :=
   let '(a, b, e) := c in
   let m := distance_matrix QK a b in
-  Nat.eqb (length m) (length e) && forallb (fun p => list_close tolQ (snd p) (fst p)) (combine m e).
+  let m2 := map (fun ai => map (fun bj => norm2 (vsub ai bj)) b) a in
+  Nat.eqb (length m) (length e) && forallb (fun p => list_close tolQ (snd p) (fst p)) (combine m e)
+  && forallb (fun p => Nat.eqb (length (fst p)) (length (snd p))
+                       && forallb (fun q => sq_close (snd q) (fst q)) (combine (fst p) (snd p))) (combine m2 e).
 
 (* guess_connectivity (exact: squared distances) *)
 Definition pair_eqb (a b : nat * nat) : bool := Nat.eqb (fst a) (fst b) && Nat.eqb (snd a) (snd b).
